@@ -424,6 +424,8 @@ class Taint:
                     v = self.component(self.f.bodies[r], 0, list(path), depth + 1)
                     if v is None:
                         return None
+                    if v.taint and not v.g and self._ret_guarded(self.f.bodies[r]):
+                        v = Val(v.taint, v.bound, v.neg, v.why, True)
                     vals.append(v)
                 else:
                     return None
@@ -602,7 +604,7 @@ class Taint:
             return Val(args[0].taint or args[1].taint, min(args[0].bound * args[1].bound if 0 not in (args[0].bound, args[1].bound) else 0, tm), False, join(args).why)
         if seg in ("try_from", "try_into", "from", "into", "clone", "unwrap", "expect", "unwrap_or", "unwrap_or_default", "ok_or", "ok_or_else", "ok", "branch", "from_residual",
                    "cloned", "copied", "deref", "as_ref", "borrow", "map_err", "unwrap_or_else", "get_or_insert", "abs", "unsigned_abs", "to_owned", "must_use", "next",
-                   "into_iter", "iter", "enumerate", "rev", "get", "first", "last", "index", "and_then", "map", "transpose", "as_deref", "peekable", "step_by"):
+                   "into_iter", "iter", "enumerate", "rev", "get", "first", "last", "index", "and_then", "map", "transpose", "as_deref", "peekable", "step_by", "zip", "by_ref"):
             v = join(args) if args else Val()
             m = re.search(r"(?:Result|Option)<(\w+)[,>]", rty)
             tyn = rty if rty in INT_TYPES else (m.group(1) if m else None)
@@ -616,7 +618,7 @@ class Taint:
         if r and t.get("resolved_local") and r in self.f.bodies and depth < 40:
             cb = self.f.bodies[r]
             v = self.local(cb, 0, depth + 1)
-            return Val(v.taint or False, v.bound, v.neg, v.why)
+            return Val(v.taint or False, v.bound, v.neg, v.why, v.taint and self._ret_guarded(cb))
         tm = INF
         m = re.search(r"(?:Result|Option)<(\w+)[,>]", rty)
         tyn = rty if rty in INT_TYPES else (m.group(1) if m else None)
@@ -828,6 +830,37 @@ class Taint:
                     if st[0] == "assign" and st[2][0] == "binop" and st[2][1] in ("Lt", "Le", "Gt", "Ge", "Eq", "Ne"):
                         if (self._covers(self.expr_key(b, st[2][2]), key) or self._covers(self.expr_key(b, st[2][3]), key)) and self.separates(b, bi, site_bb):
                             return True
+            # a validating helper of the crate that was handed the struct the value is read from (`predictor_stride(params)?`) and compares
+            # that very field
+            if t["k"] == "call" and bi != site_bb and t.get("resolved_local") and t.get("resolved") in self.f.bodies:
+                cb = self.f.bodies[t["resolved"]]
+                rty = b["locals"][t["dest"][0]]["s"] if t.get("dest") else ""
+                if rty.startswith(("std::result::Result<", "std::option::Option<")) and len(cb["blocks"]) <= 60:
+                    for k2, a in enumerate(t["args"], start=1):
+                        if a[0] not in ("copy", "move") or k2 > cb["argc"]:
+                            continue
+                        # the value itself is handed to the helper, which compares it (`xref_entry_len(w0, w1, w2)?`)
+                        if self._covers(self.expr_key(b, a), key) and "" in self._compared_fields(cb, k2) and self.separates(b, bi, site_bb):
+                            return True
+                        if not places:
+                            continue
+                        abase = self.canon_place(b, list(a[1]))[0]
+                        for _ in range(4):      # `&*params` re-borrows and copies of the reference
+                            ds0 = self.defs(b).get(abase, [])
+                            if len(ds0) == 1 and ds0[0][0] == "assign" and not (1 <= abase <= b["argc"]):
+                                rv0 = ds0[0][2]
+                                if rv0[0] == "ref" and len(rv0[1]) == 2 and rv0[1][1][0] == "deref":
+                                    abase = rv0[1][0]
+                                    continue
+                                if rv0[0] == "use" and rv0[1][0] in ("copy", "move") and len(rv0[1][1]) == 1:
+                                    abase = rv0[1][1][0]
+                                    continue
+                            break
+                        for pj in places:
+                            pl = json.loads(pj)
+                            flds = [e[2] for e in pl[1:] if e[0] == "field"]
+                            if pl[0] == abase and flds and flds[-1] in self._compared_fields(cb, k2) and self.separates(b, bi, site_bb):
+                                return True
             if t["k"] == "call" and bi != site_bb and last_seg(F.callee_name(t)) in ("get", "get_mut", "contains", "checked_add", "checked_sub", "checked_mul", "try_from", "try_into", "read", "contains_key"):
                 for a in t["args"]:
                     if self._covers(self.expr_key(b, a), key) and self.separates(b, bi, site_bb):
@@ -839,6 +872,74 @@ class Taint:
                             if any(self._covers(self.expr_key(b, o), key) for o in d[2][2]) and self.separates(b, bi, site_bb):
                                 return True
         return False
+
+    def _ret_guarded(self, cb):
+        """every value the function hands back in Ok(..) / Some(..) (or directly) was compared, as that very expression, before the return:
+        `if w0 + w1 + w2 == 0 { bail } Ok(w0 + w1 + w2)`"""
+        memo = self.__dict__.setdefault("_retg", {})
+        if cb["id"] in memo:
+            return memo[cb["id"]]
+        memo[cb["id"]] = False
+        sites = []
+        for i, j, st in F.stmts(cb):
+            if st[0] == "assign" and st[1] == [0]:
+                rv = st[2]
+                if rv[0] == "aggregate" and rv[1].get("variant") in ("Ok", "Some") and rv[2]:
+                    sites.append((i, rv[2][0]))
+                elif rv[0] == "aggregate" and rv[1].get("variant") in ("Err", "None"):
+                    continue
+                elif rv[0] == "use":
+                    sites.append((i, rv[1]))
+                else:
+                    sites.append((i, None))
+        ok = bool(sites) and all(op is not None and op[0] in ("copy", "move") and self.guarded_exact(cb, i, op) for i, op in sites)
+        memo[cb["id"]] = ok
+        return ok
+
+    def _compared_fields(self, cb, k):
+        """names of the fields of parameter k (a struct passed by reference) that the body, or a closure of it, compares with something;
+        "" stands for the parameter itself"""
+        key = (cb["id"], k, "fields")
+        memo = self.__dict__.setdefault("_cmpp", {})
+        if key in memo:
+            return memo[key]
+        out = set()
+        for body in [cb] + [x for x in self.f.bodies.values() if x["id"].startswith(cb["id"] + "::{closure")]:
+            for i, j, st in F.stmts(body):
+                if st[0] == "assign" and st[2][0] == "binop" and st[2][1] in ("Lt", "Le", "Gt", "Ge", "Eq", "Ne"):
+                    for o in (st[2][2], st[2][3]):
+                        if o[0] in ("copy", "move"):
+                            anc = self.ancestors(body, o[1][0])
+                            root = k if body is cb else 1
+                            if root in anc:
+                                out.add("")
+                                for x in anc:
+                                    if isinstance(x, tuple) and x[0] == "place":
+                                        for e in json.loads(x[1])[1:]:
+                                            if e[0] == "field":
+                                                out.add(e[2])
+        memo[key] = out
+        return out
+
+    def _compares_param(self, cb, k):
+        """the body (or one of its closures) has a comparison one side of which is read from parameter k"""
+        key = (cb["id"], k)
+        memo = self.__dict__.setdefault("_cmpp", {})
+        if key in memo:
+            return memo[key]
+        res = False
+        for body in [cb] + [x for x in self.f.bodies.values() if x["id"].startswith(cb["id"] + "::{closure")]:
+            for i, j, st in F.stmts(body):
+                if st[0] == "assign" and st[2][0] == "binop" and st[2][1] in ("Lt", "Le", "Gt", "Ge", "Eq", "Ne"):
+                    for o in (st[2][2], st[2][3]):
+                        if o[0] in ("copy", "move"):
+                            anc = self.ancestors(body, o[1][0])
+                            if body is cb and k in anc:
+                                res = True
+                            if body is not cb and 1 in anc:
+                                res = True        # a captured variable of the helper's closure
+        memo[key] = res
+        return res
 
     def guarded(self, b, site_bb, l):
         """a comparison involving l (or something l was computed from / that was computed from the same
@@ -861,6 +962,15 @@ class Taint:
                 if bi != site_bb:
                     for a in t["args"]:
                         if a[0] in ("copy", "move"):
+                            cmp_locals.add(a[1][0])
+            # a validating helper of the crate: `let stride = predictor_stride(params)?` - the callee compares (something read from) the
+            # parameter it is given, and its failure leaves (separates() looks at the `?` that follows)
+            if t["k"] == "call" and bi != site_bb and t.get("resolved_local") and t.get("resolved") in self.f.bodies:
+                cb = self.f.bodies[t["resolved"]]
+                rty = b["locals"][t["dest"][0]]["s"] if t.get("dest") else ""
+                if rty.startswith(("std::result::Result<", "std::option::Option<")) and len(cb["blocks"]) <= 60:
+                    for k, a in enumerate(t["args"], start=1):
+                        if a[0] in ("copy", "move") and k <= cb["argc"] and self._compares_param(cb, k):
                             cmp_locals.add(a[1][0])
             if t["k"] != "switch" and not (t["k"] == "call"):
                 continue
